@@ -452,7 +452,7 @@ def _wake_tendon_kernel(
 
   # Pass 1: Check if any tree involved in the tendon is awake
   any_awake = int(0)
-  wakeval = int(K_AWAKE_VAL)
+  wakeval = int(0)  # most-awake countdown among the awake trees (all negative), as in _tendon_wake_val
 
   for i in range(num):
     idx = adr + i
@@ -472,6 +472,9 @@ def _wake_tendon_kernel(
         val = tree_asleep_out[worldid, t]
         if val < wakeval:
           wakeval = val
+
+  if wakeval >= 0:
+    wakeval = int(K_AWAKE_VAL)
 
   # Pass 2: If at least one tree is awake and the limit is active, wake up all sleeping trees
   if any_awake == 1:
